@@ -11,12 +11,12 @@ import subprocess
 
 from . import common as c
 
-COQ_MODEL_TARGETS = ["Trie/Radix.vo", "Trie/PrefixMap.vo", "Trie/Locks.vo", "Trie/InstanceState.vo"]
+COQ_MODEL_TARGETS = ["Trie/Radix.vo", "Trie/PrefixMap.vo", "Trie/Locks.vo", "Trie/Nibbles.vo", "Trie/InstanceState.vo", "Trie/Arena.vo"]
 
 
 def parse_lines(out):
     """-> dict tag -> {id: body} for the line-oriented outputs (H/R/O/M/P/J lines), plus S stats."""
-    d = {"H": {}, "R": {}, "O": {}, "M": {}, "P": {}, "J": {}, "D": {}, "N": {}}
+    d = {"H": {}, "R": {}, "O": {}, "M": {}, "P": {}, "J": {}, "D": {}, "N": {}, "A": {}}
     stats = {}
     order = []
     for l in out.split("\n"):
@@ -33,7 +33,7 @@ def parse_lines(out):
             continue
         t = l.split(" ", 2)
         d[tag][t[1]] = t[2] if len(t) > 2 else ""
-        if tag in ("H", "P", "J", "N"):
+        if tag in ("H", "P", "J", "N", "A"):
             order.append((tag, t[1]))
     return d, stats, order
 
@@ -67,7 +67,7 @@ class Side:
         self.replay_mode = replay_mode
 
 
-SIDES = {"H": Side("H", "replay"), "P": Side("P", "preplay"), "J": Side("J", "ireplay"), "N": Side("N", "sreplay")}
+SIDES = {"H": Side("H", "replay"), "P": Side("P", "preplay"), "J": Side("J", "ireplay"), "N": Side("N", "sreplay"), "A": Side("A", "areplay")}
 
 
 def evaluate(binp, runner, tag, hid, ops, with_spec=True):
@@ -87,13 +87,8 @@ def evaluate(binp, runner, tag, hid, ops, with_spec=True):
     if rc != 0 or impl is None:
         res["problems"].append("harness replay failed rc=%s: %s" % (rc, out[-300:]))
         return res
-    if tag == "J":
-        # contract-visible layer: implementation against the independent reference only
-        if "DISAGREE" in impl or "READ-LEN" in impl or "KEY-LEN" in impl or "error" in impl.split(";"):
-            res["problems"].append("impl-flag")
-        if orc is not None and not orc.get("ok", True):
-            res["problems"].append("oracle")
-        return res
+    if tag == "J" and ("DISAGREE" in impl or "READ-LEN" in impl or "KEY-LEN" in impl or "error" in impl.split(";")):
+        res["problems"].append("impl-flag")
     model = run_model(runner, "model", line).get(hid)
     res["model"] = model
     if model != impl:
@@ -172,7 +167,7 @@ def correspondence(ctx, binp, runner, args, tag, what, max_report=2, with_spec=T
         return {"histories": 0}
     d, stats, order = parse_lines(out)
     text = "".join("%s %s %s\n" % (tag, hid, d[tag][hid]) for t, hid in order if t == tag)
-    model = run_model(runner, "model", text) if tag != "J" else None
+    model = run_model(runner, "model", text)
     spec = run_model(runner, "spec", text) if (with_spec and tag == "H") else None
     nbad = 0
     seen = set()
@@ -274,6 +269,32 @@ def correspondence_chunked(ctx, binp, runner, mode_args, seed, total, tag, what,
     return agg
 
 
+def arena_refines_model(ctx, binp, runner, seed, n):
+    """Executable refinement test between the two Coq models: the arena machine (level C, Arena.v) and the
+    radix-tree machine (level B, Locks.v) must give the same observations on the same histories."""
+    rc, out = c.run_bin(binp, ["arena", seed, n], timeout=3000)
+    d, _, order = parse_lines(out)
+    ids = [hid for t, hid in order if t == "A"]
+    a_text = "".join("A %s %s\n" % (hid, d["A"][hid]) for hid in ids)
+    h_text = "".join("H %s %s\n" % (hid, d["A"][hid]) for hid in ids)
+    am = run_model(runner, "model", a_text)
+    hm = run_model(runner, "model", h_text)
+    bad = 0
+    for hid in ids:
+        stripped = ";".join(x.split("#")[0] for x in am.get(hid, "").split(";"))
+        if stripped != hm.get(hid):
+            bad += 1
+            if bad <= 2:
+                fd = first_diff(stripped, hm.get(hid, ""))
+                ctx.violation({"layer": "extracted arena model (Arena.v) vs extracted radix-tree model (Locks.v)",
+                               "history": d["A"][hid][:2000], "arena": stripped[:1000], "tree": hm.get(hid, "")[:1000],
+                               "first_difference": fd},
+                              "the arena model and the radix-tree model disagree (the two Coq models are inconsistent)",
+                              no_input=True)
+    ctx.cov["evaluations"] += len(ids)
+    return {"histories": len(ids), "disagreeing": bad}
+
+
 def corpus_replay(ctx, binp, runner, prop):
     """Replay the regression corpus (corpus/<prop>/*.txt with H/P/J lines)."""
     d = os.path.join(c.VERIF, "corpus", prop)
@@ -285,7 +306,7 @@ def corpus_replay(ctx, binp, runner, prop):
             continue
         for l in open(os.path.join(d, fn)):
             l = l.rstrip("\n")
-            if len(l) < 3 or l[0] not in "HPJN" or l[1] != " ":
+            if len(l) < 3 or l[0] not in "HPJNA" or l[1] != " ":
                 continue
             t = l.split(" ", 2)
             ops = [o for o in (t[2] if len(t) > 2 else "").split(";") if o]
